@@ -1,6 +1,7 @@
 package sim
 
 import (
+	"runtime/debug"
 	"runtime"
 	"sync"
 )
@@ -45,6 +46,25 @@ type batonState struct {
 }
 
 var baton batonState
+
+// taskPanic carries an unrecovered panic of a task goroutine to the parent.
+type taskPanic struct {
+	Val   interface{}
+	Stack string
+}
+
+var batonTaskPanic *taskPanic
+
+// batonRecordPanic keeps the first task panic of a run. Like every word the
+// tasks share it is touched only here, out of the race detector's sight.
+//
+//go:norace
+//go:noinline
+func batonRecordPanic(tp *taskPanic) {
+	if batonTaskPanic == nil {
+		batonTaskPanic = tp
+	}
+}
 
 //go:norace
 //go:noinline
@@ -225,9 +245,11 @@ func RunBaton(n int, seed uint64, useRng bool, pSwitch, pAbandon float64, sched 
 			defer func() {
 				if r := recover(); r != nil {
 					if _, ok := r.(taskKilled); !ok {
-						batonFinish(me)
-						batonSet(batonPick())
-						panic(r)
+						// a panic nobody in the task recovered: remembered (the
+						// panicking task holds the baton, so this is serialised) and
+						// re-raised by the parent once every task is done, where the
+						// worker's backstop turns it into a violation
+						batonRecordPanic(&taskPanic{Val: r, Stack: string(debug.Stack())})
 					}
 				}
 				batonFinish(me)
@@ -242,5 +264,9 @@ func RunBaton(n int, seed uint64, useRng bool, pSwitch, pAbandon float64, sched 
 	}
 	batonSet(batonPick())
 	wg.Wait()
+	if tp := batonTaskPanic; tp != nil {
+		batonTaskPanic = nil
+		panic(*tp)
+	}
 	return batonLog()
 }
